@@ -82,8 +82,18 @@ func (c *Ctx) N(quick, thorough int) int {
 	if c.Thorough() {
 		return thorough
 	}
+	if c.Searching() && thorough > quick {
+		if 4*quick < thorough {
+			return 4 * quick
+		}
+		return thorough
+	}
 	return quick
 }
+
+// Searching: bin/check found a broken proof obligation and asks for a harder
+// search for a concrete failing input (VERIF_SEARCH=1).
+func (c *Ctx) Searching() bool { return os.Getenv("VERIF_SEARCH") != "" }
 
 // NextIndex reserves the index of the next case (so a driver can skip the
 // expensive implementation run when replaying a single index).
